@@ -13,6 +13,10 @@ RULE = ("kinds: gen (SampleSegregating incl. several samples at / below the size
         "recorded rng / heappop / argsort answers fed to the model (variant fixed=false|true chosen by replaying the canonical witness "
         "on /repo); each clause of the property evaluated directly on the real output.  Non-trivial: at least one unobserved experiment.")
 THEOREMS = {
+    "C13_model_is_source_generate_plates": "the wrapper model `wrap f` equals, for every inner generator f (in particular generate_plates g for the shipped ones), the translation of the whole method RetrospectivePlateGenerator.generate_plates regenerated from /repo's current core.py on this run (Generated/SrcRetro.v)",
+    "C13_model_is_source_smooth_plates": "likewise for RetrospectivePlateSmoother.smooth_plates and every inner smoother",
+    "C13_model_is_source_merge_min_smooth_plates": "the translation of the whole method MergeMinPlateSmoother._smooth_plates (while True on explicit fuel) regenerated from /repo equals the model merge_min for every min_size, screen and answer stream whenever the fuel exceeds the number of experiments",
+    "C13_model_is_source_merge_tb_smooth_plates": "the translation of the whole method MergeTopBottomPlateSmoother._smooth_plates regenerated from /repo equals the model merge_tb for every n_iterations and screen",
     "C13_sample_segregating_shape": "repaired logic (fixed=true), every permutation answer a permutation of the sample's indices: every unobserved output plate holds one sample and at most max experiments",
     "C13_sample_segregating_even": "repaired logic (fixed=true), permutation contract: any two unobserved output plates holding experiments of the same sample differ in size by at most one (the plates of a sample are the np.array_split chunks)",
     "C13_sample_segregating_shape_refuted": "code as found (fixed=false): witness A,A,B,B,B with max 3 gives one plate '' of 5 > 3 experiments holding 2 samples",
@@ -53,7 +57,12 @@ EXPLANATION = ("Models shared with C11 (Model/Retro.v, Pairwise.v, RetroInit.v);
                "#samples + #distinct-ids answers; with that many contract-obeying answers the model returns Ok (the real code was "
                "probed on the empty screen, all-control screens and screens whose only control entry is in an unchosen row: it "
                "returns on all of them); the harness checks the same bound on the recorded number of rng.choice calls.  "
-               "heapq is modelled by its contract (heappop answers are oracle inputs checked to be smallest), not by its array layout.")
+               "heapq is modelled by its contract (heappop answers are oracle inputs checked to be smallest), not by its array layout.  "
+               "SOURCE LINKS (C13_model_is_source_*): generate_plates, smooth_plates (core.py), MergeMinPlateSmoother._smooth_plates and "
+               "MergeTopBottomPlateSmoother._smooth_plates are re-translated from /repo on every run (harness/py2gal.py -> Generated/SrcRetro.v) and proved equal to wrap / "
+               "merge_min / merge_tb for all inputs (MergeMin: whenever the explicit while-fuel exceeds the number of experiments); trusted: "
+               "the translator, Lib/PyRt.v and the primitives listed in C11's explanation (configurations C11_GENERATE_PLATES, "
+               "C11_SMOOTH_PLATES, C13_MERGEMIN_SAMPLE_ID, C13_MERGEMIN, C13_MERGETB_SAMPLE_ID, C13_MERGETB of harness/src_functions.py).")
 
 SIGNATURES = ("sample-segregating-lumps-small-samples", "nplate-stale-sample-ids")
 
